@@ -57,7 +57,7 @@ func (f *DescribeFlavor) Call(s *slip.Scope, args slip.List, depth int) (result 
 	default:
 		slip.TypePanic(s, depth, "flavor argument to describe-flavor", ta, "symbol", "flavor")
 	}
-	w := s.Get("*standard-output*").(io.Writer)
+	w := s.WriterVar("*standard-output*", depth)
 	if 1 < len(args) {
 		var ok bool
 		if w, ok = args[1].(io.Writer); !ok {
